@@ -132,6 +132,8 @@ func main() {
 			ps = append(ps, coqObsPatch(p))
 		}
 		fmt.Printf("coq-patches: %s\n", cf.List(ps))
+	case "clients":
+		clientsMain()
 	case "strategy":
 		strategyMain(*seed, *tier, *replay)
 	case "walk":
